@@ -808,3 +808,90 @@
             end_reached!();
         }
     }
+
+    // ================================================================================== C05 (E1 part): the promotion race on the real code
+    // Two threads clone through one shared `&Bytes` that is still unpromoted.  Both read the tagged pointer, both
+    // allocate a control block, one compare_exchange wins.  The loser's continuation is executed here with its
+    // STALE snapshot after the winner's complete clone: it must free only its own control block, adopt the winner's
+    // block and count itself there.  (Every other function of the concurrent alphabet is a single atomic
+    // read-modify-write followed by thread-local work, so its interleavings are sequences and are F-STEP's.)
+    unsafe fn lost_promotion_race(expect_even: bool) {
+        let (b, g, even) = st_promo();
+        assert!(even == expect_even);
+        // thread B (the loser) has read data and computed buf, then is preempted
+        let snapshot = b.data.load(Ordering::Acquire);
+        // thread A: complete clone through the same &Bytes: promotes
+        let a = b.clone();
+        let winner = b.data.load(Ordering::Relaxed) as *mut Shared;
+        assert!((*winner).ref_cnt.load(Ordering::Relaxed) == 2);
+        // thread B continues with the stale snapshot
+        let c = shallow_clone_vec(&b.data, snapshot as *const (), g.buf, b.ptr, b.len);
+        assert!(c.ptr == b.ptr && c.len == b.len);
+        assert!(c.data.load(Ordering::Relaxed) == winner.cast());
+        assert!(b.data.load(Ordering::Relaxed) == winner.cast());
+        assert!((*winner).ref_cnt.load(Ordering::Relaxed) == 3);
+        assert!((*winner).buf == g.buf && (*winner).cap == CAP);
+        view_eq(c.as_slice(), &g);
+        view_eq(a.as_slice(), &g);
+        view_eq(b.as_slice(), &g);
+        // all three handles go away in any order: buffer freed exactly once, loser's block already freed
+        let order: u8 = kani::any();
+        kani::assume(order < 3);
+        match order {
+            0 => {
+                drop(a);
+                drop(b);
+                view_eq(c.as_slice(), &g);
+                drop(c);
+            }
+            1 => {
+                drop(c);
+                drop(a);
+                view_eq(b.as_slice(), &g);
+                drop(b);
+            }
+            _ => {
+                drop(b);
+                drop(c);
+                view_eq(a.as_slice(), &g);
+                drop(a);
+            }
+        }
+        end_reached!();
+    }
+    // @reg name=lost_promotion_race_even props=C05,C03,C02 tier=quick flags=leak group=race note=loser_of_the_promotion_CAS_continues_with_a_stale_snapshot(even_address)
+    // @reg name=lost_promotion_race_odd props=C05,C03,C02,C16 tier=quick flags=leak group=race note=loser_of_the_promotion_CAS_continues_with_a_stale_snapshot(odd_address)
+    parity_pair!(lost_promotion_race_even, lost_promotion_race_odd, lost_promotion_race);
+
+    // @h props=C05,C03 tier=quick flags=leak group=race note=conversion_racing_with_a_clone:into_vec/into_mut_of_a_handle_whose_sibling_appeared_after_the_uniqueness_was_assumed
+    #[kani::proof]
+    #[kani::unwind(6)]
+    pub fn convert_after_sibling_clone() {
+        unsafe {
+            // T1 is about to convert its (unique) shared handle; T2 clones a second handle it owns first.  Whatever
+            // T1 then does must not take the buffer away from T2's clone: exactly one party may take it zero-copy.
+            let (b, g) = st_shared(&SHARED_VTABLE);
+            kani::assume(g.r == 2);
+            let other = Bytes { ptr: g.buf.add(g.off), len: g.len, data: AtomicPtr::new(g.sh.cast()), vtable: &SHARED_VTABLE };
+            let t2_clone = other.clone();
+            let to_vec: bool = kani::any();
+            if to_vec {
+                let v: Vec<u8> = b.into();
+                assert!(v.as_ptr() != g.buf as *const u8);
+                view_eq(&v, &g);
+            } else {
+                let m: BytesMut = b.into();
+                assert!(m.as_ptr() != g.buf as *const u8 || g.len == 0);
+                view_eq(&m[..], &g);
+            }
+            view_eq(other.as_slice(), &g);
+            view_eq(t2_clone.as_slice(), &g);
+            assert!(cnt(&g) == 2);
+            drop(other);
+            // the last handle may now take the buffer without copying
+            assert!(t2_clone.is_unique());
+            let m: BytesMut = t2_clone.into();
+            assert!(m.as_ptr() == g.buf.add(g.off) as *const u8);
+            end_reached!();
+        }
+    }
